@@ -1,4 +1,4 @@
-use crate::code::utils::line_break_pos_finder::find_next_line_break_pos;
+use crate::code::utils::line_break_pos_finder::{find_next_line_break_pos, is_line_head};
 
 use super::Formatter;
 pub struct NextLineBreakRemover {}
@@ -31,6 +31,10 @@ impl Formatter for NextLineBreakRemover {
     /// ```
     fn format(&self, content: &str, byte_pos: usize) -> (usize, usize) {
         let bytes = content.as_bytes();
+
+        if !is_line_head(bytes, byte_pos) {
+            return (byte_pos, byte_pos);
+        }
 
         let line_break_pos = find_next_line_break_pos(content, bytes, byte_pos, true)
             .and_then(|pos| find_next_line_break_pos(content, bytes, pos + 1, true));
